@@ -16,7 +16,10 @@ use crate::timeout_list::now;
 use may_queue::mpsc::Queue;
 use nix::sys::epoll::*;
 use nix::sys::eventfd::*;
+#[cfg(not(may_verif))]
 use nix::unistd::{read, write};
+#[cfg(may_verif)]
+use crate::verif::evfd::{read, write};
 use smallvec::SmallVec;
 
 pub type SysEvent = EpollEvent;
